@@ -78,3 +78,73 @@ Print Assumptions C08_count.
 Print Assumptions C08_batch_set_relation.
 Print Assumptions C08_batch_exchange.
 Print Assumptions C08_equals_singles.
+
+(** ** Batch creation.  [World.createEntities] (n handles from the pool, one AllocN, one index
+    pass) yields literally the world and the handles of n calls of [World.createEntity];
+    Builder.NewBatch refines n abstract creations through the same builder, in every world
+    that refines an abstract store; [ilen] (target bits as long as the entity index) holds
+    in every world reachable by ANY operations. *)
+From Arche Require Import Model.Pool Proofs.PoolInv Proofs.IlenInv Proofs.BatchCreate.
+Theorem C08_create_entities_is_iterated_create_entity : forall w tid n t nd live issued frees,
+  w_tables w !! tid = Some t -> w_nodes w !! t_node t = Some nd -> 0 < node_capinc w nd ->
+  pool_inv (w_pool w) live issued frees ->
+  length (w_index w) = length (p_ents (w_pool w)) -> length (w_tbits w) = length (w_index w) ->
+  create_entities w tid (S n) =
+  (let '(w1, e) := create_entity w tid in
+   let '(w2, es) := create_entities w1 tid n in (w2, e :: es)).
+Proof. exact create_entities_cons. Qed.
+Theorem C08_batch_new_equals_singles : forall w A count b target w' es evs,
+  R w A -> cache_ok w -> ilen w -> ids_reg A (b_ids b) -> b_vals b = None ->
+  op_new_batch w count b target = (w', Ok (VEnts es), evs) ->
+  Z.of_nat (length es) = count /\ NoDup es /\ (forall e, e ∈ es -> e ∉ as_issued A) /\
+  R w' (foldl (fun A e => astep A (OBNew b target) (Ok (VEnt e))) A es) /\ cache_ok w' /\ ilen w'.
+Proof. exact batch_new_equals_singles. Qed.
+Theorem C08_ilen_every_history : forall capinc relcapinc tb ops, ilen (run (world_init capinc relcapinc tb) ops).
+Proof. exact ilen_reachable. Qed.
+Print Assumptions C08_batch_new_equals_singles.
+Print Assumptions C08_create_entities_is_iterated_create_entity.
+Print Assumptions C08_ilen_every_history.
+
+(** ** Batch.RemoveEntities.  Removing all matching entities in one call refines the single
+    removals of exactly those entities (tables that had one of them as relation target are
+    cleaned up; children that survive become orphans, as with single removals); the count
+    is their number.  Generations below the last one (finding K1). *)
+From Arche Require Import Proofs.BatchRemove.
+Theorem C08_batch_remove_equals_singles : forall w A f w' n evs,
+  R w A -> cache_ok w ->
+  (forall e, e ∈ table_ents w (get_tables w f) -> (egen e < gen_max)%N) ->
+  op_remove_entities w (FPlain f) = (w', Ok (VNat n), evs) ->
+  let L := table_ents w (get_tables w f) in
+  n = length L /\ NoDup L /\ (forall e, e ∈ L <-> (e ∈ as_live A /\ ent_matches w f e)) /\
+  R w' (foldl (fun A e => astep A (ORemoveEntity e) (Ok VUnit)) A L) /\ cache_ok w'.
+Proof. exact batch_remove_refines. Qed.
+
+(** ** The ...Q variants: the returned query enumerates exactly the entities the batch call
+    changed (Batch.AddQ / RemoveQ / ExchangeQ, Relations.ExchangeBatchQ) resp. created
+    (Builder.NewBatchQ), in processing order; the world is that of the plain variant plus
+    one lock bit and the query. *)
+From Arche Require Import Proofs.Cursor Proofs.BatchQ.
+Theorem C08_batch_exchange_q : forall w A f add rem rel w2 h evs,
+  R w A -> cache_ok w -> Forall (fun id => id < length (as_reg A)) add -> (add <> [] \/ rem <> []) ->
+  op_batch_exchange_q w (FPlain f) add rem rel = (w2, Ok (VNat h), evs) ->
+  exists w' n evs' q,
+    op_batch_exchange w (FPlain f) add rem rel = (w', Ok (VNat n), evs') /\
+    w_queries w2 = w_queries w' ++ [q] /\ h = length (w_queries w') /\ w_tables w2 = w_tables w' /\
+    w_index w2 = w_index w' /\ w_pool w2 = w_pool w' /\ w_nodes w2 = w_nodes w' /\
+    q_closed q = false /\
+    omap (pos_ent w2) (enum (q_segs q)) = table_ents w (get_tables w f) /\
+    length (enum (q_segs q)) = n.
+Proof. exact batch_exchange_q_visits. Qed.
+Theorem C08_new_batch_q : forall w A count b target w2 h evs,
+  R w A -> ids_reg A (b_ids b) ->
+  op_new_batch_q w count b target = (w2, Ok (VNat h), evs) ->
+  exists w' es evs' q,
+    op_new_batch w count b target = (w', Ok (VEnts es), evs') /\
+    w_queries w2 = w_queries w' ++ [q] /\ h = length (w_queries w') /\ w_tables w2 = w_tables w' /\
+    w_index w2 = w_index w' /\ w_pool w2 = w_pool w' /\ w_nodes w2 = w_nodes w' /\
+    q_closed q = false /\
+    omap (pos_ent w2) (enum (q_segs q)) = es.
+Proof. exact batch_new_q_visits. Qed.
+Print Assumptions C08_batch_remove_equals_singles.
+Print Assumptions C08_batch_exchange_q.
+Print Assumptions C08_new_batch_q.
